@@ -352,6 +352,20 @@ func TestDriver(t *testing.T) {
 			d.containers(t)
 		}
 	}
+	writeReport(t, rep)
+}
+
+// writeReport: vlib iterates over violations/samples/inconclusive, so they must not be JSON null.
+func writeReport(t *testing.T, rep *vh.Report) {
+	if rep.Violations == nil {
+		rep.Violations = []vh.Violation{}
+	}
+	if rep.Inconclusive == nil {
+		rep.Inconclusive = []string{}
+	}
+	if rep.Samples == nil {
+		rep.Samples = []any{}
+	}
 	if err := rep.Write(); err != nil {
 		t.Fatal(err)
 	}
